@@ -29,6 +29,10 @@ pub struct Timing {
     /// further status bits in the top OCR byte (UHS-II 0x20, over-2TB 0x08, S18A 0x01)
     #[serde(default)]
     pub ocr_extra: u8,
+    /// the host does NOT grant extra identification attempts for the ignored CMD0 frames: with
+    /// more ignored frames than attempts the first use legitimately fails with "card not found"
+    #[serde(default)]
+    pub sluggish: bool,
 }
 
 #[derive(Clone, Debug, Serialize, Deserialize, PartialEq)]
@@ -62,6 +66,8 @@ pub enum Fault {
     SpiError { nth_transaction: u32 },
     /// a version 2 card whose answer to CMD8 never carries the check pattern
     WrongCmd8Echo { echo: u8 },
+    /// from SPI byte `at` on the data line is stuck at one value (neither idle 0xFF nor busy 0x00)
+    StuckFrom { at: u32, value: u8 },
 }
 
 #[derive(Debug)]
@@ -197,6 +203,7 @@ pub struct CardInner {
     pub faults: Vec<Fault>,
     pub fault_fired: bool,
     garbage: Option<u32>,
+    stuck: Option<u8>,
     dead: bool,
     stuck_busy: bool,
     pub multi_writes_seen: u32,
@@ -209,6 +216,13 @@ pub struct CardInner {
 pub struct SimCard(pub Rc<RefCell<CardInner>>);
 
 pub fn bg_block(seed: u32, block: u32) -> [u8; 512] {
+    // seeds 0 and 1: a blank card (all zeros) and an erased card (all ones)
+    if seed == 0 {
+        return [0u8; 512];
+    }
+    if seed == 1 {
+        return [0xFFu8; 512];
+    }
     let mut b = [0u8; 512];
     let mut x = (seed as u64) << 32 | block as u64 | 1;
     for c in b.chunks_mut(8) {
@@ -265,6 +279,7 @@ impl SimCard {
             faults,
             fault_fired: false,
             garbage: None,
+            stuck: None,
             dead: false,
             stuck_busy: false,
             multi_writes_seen: 0,
@@ -290,6 +305,7 @@ impl SimCard {
         c.streaming_read = None;
         c.faults.clear();
         c.garbage = None;
+        c.stuck = None;
         c.dead = false;
         c.stuck_busy = false;
         c.cmd0_left = 0;
@@ -650,6 +666,10 @@ impl CardInner {
                     self.garbage = Some(seed | 1);
                     self.fault_fired = true;
                 }
+                Fault::StuckFrom { at: a, value } if a as u64 == at => {
+                    self.stuck = Some(value);
+                    self.fault_fired = true;
+                }
                 _ => {}
             }
         }
@@ -658,6 +678,9 @@ impl CardInner {
         }
         if self.stuck_busy {
             return 0x00;
+        }
+        if let Some(v) = self.stuck {
+            return v;
         }
         if let Some(s) = self.garbage.as_mut() {
             *s ^= *s << 13;
